@@ -86,6 +86,9 @@ OnSend(mm, e, meta) ==
                 \cup (IF meta.assume /\ \E r2 \in Active(mm) \ {r} : mm.rq[r2].sends > 0 /\ mm.rq[r2].wait > e.t
                       THEN {"C06.Mutex"} ELSE {})
                 \cup (IF tx # -1 /\ (tx = 0 \/ tx = mm.lastTx) THEN {"C03.TxId"} ELSE {})
+                \* a transport the library was told is gone (closed by itself, by the peer, orderly or not) is not used again:
+                \* the next request (re)connects
+                \cup (IF e.tr \notin mm.open THEN {"C10.DeadTransport"} ELSE {})
                 \cup (IF single /\ q.sends > 0 /\ ~q.net /\ e.t < q.last + meta.T
                       THEN (IF mm.ucHist THEN {"OBS.StaleTimerAfterUserCancel"}
                             ELSE {"C05.FullTimeout"} \cup (IF mm.hist THEN {"C10.NextWorks"} ELSE {})) ELSE {})
